@@ -221,11 +221,20 @@ def render(case, vocab, rot, allow_ph=False, style=0, perm=None, ns="", forms=No
         if casing == 4:      # mixed: every other tag occurrence in upper case
             leafno[0] += 1
             return txt.upper() if leafno[0] % 2 else txt
+        if casing == 5:      # every other tag occurrence in upper case AND in another spelling (see alt[0] in leaf())
+            return txt.upper() if alt[0] else txt
         return txt.lower() if casing == 1 else txt.upper() if casing == 2 else txt
 
+    alt = [0]
+    fo0 = fo
+
     def leaf(k):
-        nonlocal flaw_used
+        nonlocal flaw_used, fo
         kd = kind[k]
+        if casing == 5:
+            leafno[0] += 1
+            alt[0] = leafno[0] % 2
+            fo = fo0 + alt[0]          # the alternate occurrences are spelled differently (short / partial / full path)
         if kd == "p1":
             return ns + cs(vocab.form(p1, fo))
         if kd == "p2":
